@@ -71,8 +71,12 @@ def transplant(master, mit, regs, kept, ext, eit):
     sm = difflib.SequenceMatcher(None, K, A, autojunk=False)
     k2a = {}
     for blk in sm.get_matching_blocks():
+        # isolated one- or two-token matches inside rewritten code are coincidences: ignore them
+        if blk.size < 3 and not (blk.a == 0 or blk.a + blk.size == len(K)):
+            continue
         for d in range(blk.size):
             k2a[blk.a + d] = blk.b + d
+    dropped = []
     kept_pos = {tokidx: n for n, tokidx in enumerate(kept)}
     # insertion points: for each region, the kept-token ordinal that follows it
     inserts = {}  # offset in ext.src -> [texts]
@@ -100,14 +104,9 @@ def transplant(master, mit, regs, kept, ext, eit):
         elif nxt < mit.hi and kept_pos[nxt] in k2a:
             pos = ext.toks[ekept[k2a[kept_pos[nxt]]]].start
         else:
-            # walk backwards to the nearest aligned executable token
-            p = kept_pos.get(prv, -1)
-            while p >= 0 and p not in k2a:
-                p -= 1
-            if p >= 0:
-                pos = ext.toks[ekept[k2a[p]]].end
-            else:
-                pos = ext.toks[ekept[0]].start
+            # the code on both sides of this annotation is gone from /repo: the annotation goes too
+            dropped.append(master.src[master.toks[a].start:master.toks[b - 1].end][:80])
+            continue
         inserts.setdefault(pos, []).append((order, txt))
         order += 1
     lo = ext.toks[eit.lo].start
@@ -132,7 +131,7 @@ def transplant(master, mit, regs, kept, ext, eit):
             i = cutmap[p]
     out.append(ext.src[i:hi])
     ratio = sm.ratio()
-    return "".join(out), ratio
+    return "".join(out), ratio, dropped
 
 
 def splice(prelude_src, master_src, ext_src, deferred):
@@ -164,9 +163,10 @@ def splice(prelude_src, master_src, ext_src, deferred):
             if K == A:
                 report["functions"][name] = {"status": "exact", "exec_tokens": len(K)}
             else:
-                txt, ratio = transplant(master, it, regs, kept, ext, eit)
+                txt, ratio, dropped = transplant(master, it, regs, kept, ext, eit)
                 edits.append((master.toks[it.lo].start, master.toks[it.hi - 1].end, txt))
-                report["functions"][name] = {"status": "transplanted", "exec_tokens": len(A), "similarity": round(ratio, 4)}
+                report["functions"][name] = {"status": "transplanted", "exec_tokens": len(A), "similarity": round(ratio, 4),
+                                             "annotations_dropped_with_their_code": dropped}
         elif it.kind == "type":
             if it.name in etypes:
                 K = [master.toks[k].text for k in rtok.type_kept(master.toks, it)]
